@@ -59,6 +59,19 @@ def programs(tier):
         "stmts": {"@factory": "def make(k):\n    def scale(x, k=k):\n        return x * k\n    return scale", "@double": "double = make(2)",
                   "@triple": "triple = make(3)"},
         "order": ["@factory", "@double", "@triple", "R1", "R2"]}))
+    # ONE memento function using several helpers that share a qualified name: module-level lambdas, closures made by one
+    # factory (the order in which the helper names are visited follows the hash seed)
+    progs.append(("same-qualname-helpers-lambdas", {
+        "funcs": [mkfunc("R", calls=[call("double"), call("triple"), call("quad")], rich=False)],
+        "vars": {}, "fixed_order": True,
+        "stmts": {"@double": "double = lambda x: x * 2", "@triple": "triple = lambda x: x * 3", "@quad": "quad = lambda x: x * 4"},
+        "order": ["@double", "@triple", "@quad", "R"]}))
+    progs.append(("same-qualname-helpers-closures", {
+        "funcs": [mkfunc("R", calls=[call("double"), call("triple"), call("quad")], rich=False)],
+        "vars": {}, "fixed_order": True,
+        "stmts": {"@factory": "def make(k):\n    def scale(x, k=k):\n        return x * k\n    return scale", "@double": "double = make(2)",
+                  "@triple": "triple = make(3)", "@quad": "quad = make(4)"},
+        "order": ["@factory", "@double", "@triple", "@quad", "R"]}))
     # a memento function and a plain function of ANOTHER package, both referenced from the root (and through a helper)
     progs.append(("cross-package-siblings", {
         "funcs": [mkfunc("R", calls=[call("G", "xpkg"), call("K", "xpkg"), call("P")], rich=False),
